@@ -39,3 +39,22 @@ gproof! { fn c11_refcnt_thin_as_ptr_value_addr() {
     assert!(<ThinArc<u16, u32> as RefCnt>::as_ptr(&t) as usize == value_addr, "F3 RefCnt::as_ptr for ThinArc is not the address Deref yields");
     core::mem::forget(t);
 } }
+
+// @h props=C04,C01,C03,C08,C09 features=unsize,arc-swap fuc=RefCnt::inc(Arc) note="provided RefCnt::inc: one more owner, returns the pointer as_ptr gives"
+gproof! { fn c04_refcnt_arc_inc() {
+    let n = any_count();
+    let x = mk(S16a16::any(), n);
+    let c0 = cw(&x);
+    let p = <Arc<S16a16> as RefCnt>::inc(&x);
+    assert!(p == <Arc<S16a16> as RefCnt>::as_ptr(&x) && rd(c0) == n + 1 && vrt::ga(1) && vrt::gd(0));
+    core::mem::forget(x);
+} }
+// @h props=C04,C01,C03,C08,C09 features=unsize,arc-swap fuc=RefCnt::inc(ThinArc) note="provided RefCnt::inc: one more owner (what ArcSwap::load_full hands out is a counted handle)"
+gproof! { fn c04_refcnt_thin_inc() {
+    let n = any_count();
+    let (t, len, h, buf) = crate::thin_arc::kani_h::mk_thin_u32(n);
+    let c0 = crate::thin_arc::kani_h::tcw(&t);
+    let p = <ThinArc<u16, u32> as RefCnt>::inc(&t);
+    assert!(p == <ThinArc<u16, u32> as RefCnt>::as_ptr(&t) && rd(c0) == n + 1 && vrt::ga(1) && vrt::gd(0));
+    core::mem::forget(t);
+} }
